@@ -24,7 +24,7 @@ ALLP = ["D0", "SOne", "SChain", "SIndep", "SNest", "SLit", "S2", "VmD", "VmS", "
         "DmSc", "OrE", "MixE", "Acc", "Red", "It", "ItF", "MIt", "MItF", "MItF1"]
 FAST = ["D0", "SOne", "SChain", "SIndep", "SNest", "SLit", "S2", "VmD", "VmS", "VmAx", "VmAx2", "VmMask", "Rep", "Rep3",
         "SwXY", "SwSame", "Sw3", "SSw", "SVm", "Msk", "MskD", "Dm", "Dm2", "DmMap", "DmCon", "OrE", "MixE"]
-SLOW = ["Sc1", "Sc2", "Sc3", "ScSw", "DmSc", "Acc", "Red", "It", "ItF", "MIt", "MItF", "MItF1"]
+SLOW = ["Sc1", "Sc2", "Sc3", "ScSw", "DmSc", "Acc", "Red", "It", "ItF"]    # masked-iterate programs belong to C16 only
 EAGER = ["D0", "SOne", "SChain", "SIndep", "SNest", "SLit", "S2", "SDup", "Dm", "Dm2", "DmMap", "DmCon", "Msk", "MskD"]
 EAGER_ND = [x for x in EAGER if x != "SDup"]
 REGEN = ["D0", "SOne", "SChain", "SIndep", "SNest", "S2", "Dm", "Dm2", "DmMap", "DmCon"]
@@ -45,50 +45,56 @@ def _t(text, ref, note="Trusted: TLC; the term->genjax builder and the projectio
 # property -> profile.  gens: list of generation runs (ids, first, edits, depth, n, [sub=True for bounded-exhaustive]).
 PROFILES = {
     "C01": dict(own=["selfassess.run", "selfassess.score", "selfassess.ret"],
-                gens=[dict(ids=FAST, first=["simulate", "generate"], edits=["update", "update", "updateargs", "regenerate", "indexupdate", "indexregen", "empty", "staticreq"], depth=3, n=(200, 2400)),
-                      dict(ids=SLOW, first=["simulate", "generate"], edits=["update", "updateargs", "regenerate", "indexupdate", "indexregen"], depth=2, n=(32, 600))]),
-    "C02": dict(own=["score", "ret", "visited"],
-                gens=[dict(ids=FAST, first=["simulate", "generate"], edits=["update", "updateargs", "regenerate", "indexupdate"], depth=2, n=(220, 2400)),
-                      dict(ids=SLOW, first=["simulate", "generate"], edits=["update", "updateargs"], depth=1, n=(32, 600))]),
+                gens=[dict(ids=FAST, first=["simulate", "generate"], edits=["update", "update", "updateargs", "regenerate", "indexupdate", "indexregen", "empty", "staticreq"], depth=3, n=(128, 2400)),
+                      dict(ids=SLOW, first=["simulate", "generate"], edits=["update", "updateargs", "regenerate", "indexupdate", "indexregen"], depth=2, n=(24, 600))]),
+    "C02": dict(own=["score", "ret", "visited", "assess.value", "assess.run"],
+                gens=[dict(ids=FAST, first=["simulate", "generate"], edits=["update", "updateargs", "regenerate", "indexupdate", "assess", "assess"], depth=2, n=(128, 2400)),
+                      dict(ids=SLOW, first=["simulate", "generate"], edits=["update", "updateargs"], depth=1, n=(24, 600))]),
     "C03": dict(own=["gen.agree", "gen.weight", "run", "args"],
                 gens=[dict(ids=EAGER_ND + ["VmD", "SwXY"], ids_thorough=FAST, first=["generate"], edits=[], depth=0, n=(0, 0), sub=True),
-                      dict(ids=FAST, first=["generate", "generatemask"], edits=[], depth=0, n=(120, 2000)),
-                      dict(ids=SLOW, first=["generate"], edits=[], depth=0, n=(32, 600))]),
+                      dict(ids=FAST, first=["generate", "generatemask"], edits=[], depth=0, n=(96, 2000)),
+                      dict(ids=SLOW, first=["generate"], edits=[], depth=0, n=(24, 600))]),
     "C05": dict(own=UPD,
-                gens=[dict(ids=FAST, first=["simulate", "generate"], edits=["update", "update", "updateargs", "updatemask"], depth=3, n=(200, 2400)),
-                      dict(ids=SLOW, first=["simulate"], edits=["update", "updateargs"], depth=2, n=(32, 500))]),
+                gens=[dict(ids=FAST, first=["simulate", "generate"], edits=["update", "update", "updateargs", "updatemask"], depth=3, n=(128, 2400)),
+                      dict(ids=SLOW, first=["simulate"], edits=["update", "updateargs"], depth=2, n=(24, 500))]),
     "C06": dict(own=["undo.run", "undo.restore", "undo.weight"],
-                gens=[dict(ids=FAST, first=["simulate", "generate"], edits=["update", "updateargs", "regenerate", "indexupdate", "indexregen", "staticreq", "diffannotate", "empty"], depth=3, n=(200, 2400)),
-                      dict(ids=SLOW, first=["simulate"], edits=["update", "regenerate", "indexupdate", "indexregen"], depth=2, n=(32, 500))]),
+                gens=[dict(ids=FAST, first=["simulate", "generate"], edits=["update", "updateargs", "regenerate", "indexupdate", "indexregen", "staticreq", "diffannotate", "empty"], depth=3, n=(128, 2400)),
+                      dict(ids=SLOW, first=["simulate"], edits=["update", "regenerate", "indexupdate", "indexregen"], depth=2, n=(24, 500))]),
     "C07": dict(own=["regen.unselected", "regen.weight", "regen.empty", "upd.args"],
-                gens=[dict(ids=REGEN, first=["simulate", "generate"], edits=["regenerate", "regenerate", "regenerate", "update"], depth=3, n=(200, 2400)),
-                      dict(ids=REGEN_SLOW, first=["simulate"], edits=["regenerate"], depth=2, n=(40, 400))]),
+                gens=[dict(ids=REGEN, first=["simulate", "generate"], edits=["regenerate", "regenerate", "regenerate", "update"], depth=3, n=(128, 2400)),
+                      dict(ids=REGEN_SLOW, first=["simulate"], edits=["regenerate"], depth=2, n=(24, 400))]),
     "C08": dict(own=["nochange"],
-                gens=[dict(ids=FAST, first=["simulate", "generate"], edits=["update", "update", "updateargs", "regenerate", "indexupdate", "empty", "staticreq"], depth=3, n=(200, 2400)),
-                      dict(ids=SLOW, first=["simulate"], edits=["update", "updateargs", "indexupdate"], depth=2, n=(32, 500))]),
+                gens=[dict(ids=FAST, first=["simulate", "generate"], edits=["update", "update", "updateargs", "regenerate", "indexupdate", "empty", "staticreq"], depth=3, n=(128, 2400)),
+                      dict(ids=SLOW, first=["simulate"], edits=["update", "updateargs", "indexupdate"], depth=2, n=(24, 500))]),
     "C10": dict(own=["project.value", "project.split", "run"],
-                gens=[dict(ids=PROJ, first=["simulate", "generate"], edits=["project", "project", "project", "update"], depth=4, n=(180, 2400)),
+                gens=[dict(ids=PROJ, first=["simulate", "generate"], edits=["project", "project", "project", "update"], depth=4, n=(128, 2400)),
                       dict(ids=PROJ_SLOW, first=["simulate"], edits=["project"], depth=3, n=(30, 300))]),
     "C11": dict(own=CORE,
-                gens=[dict(ids=["VmD", "VmS", "VmAx", "VmAx2", "VmMask", "Rep", "Rep3", "SVm"], first=["simulate", "generate"], edits=["update", "updateargs", "indexupdate", "indexregen", "project"], depth=3, n=(180, 2400)),
+                gens=[dict(ids=["VmD", "VmS", "VmAx", "VmAx2", "VmMask", "Rep", "Rep3", "SVm"], first=["simulate", "generate"], edits=["update", "updateargs", "indexupdate", "indexregen", "project"], depth=3, n=(128, 2400)),
                       dict(ids=["VmD", "Rep3"], ids_thorough=["VmD", "VmS", "Rep", "Rep3", "VmAx"], first=["generate"], edits=[], depth=0, n=(0, 0), sub=True)]),
     "C12": dict(own=CORE,
-                gens=[dict(ids=["Sc1", "Sc2", "Sc3", "DmSc", "Acc", "Red", "It", "ItF"], first=["simulate", "generate"], edits=["update", "updateargs", "regenerate", "indexupdate", "indexregen"], depth=2, n=(72, 900))]),
+                gens=[dict(ids=["Sc1", "Sc2", "Sc3", "DmSc", "Acc", "Red", "It", "ItF"], first=["simulate", "generate"], edits=["update", "updateargs", "regenerate", "indexupdate", "indexregen"], depth=2, n=(64, 900))]),
     "C13": dict(own=CORE,
-                gens=[dict(ids=["SwXY", "SwSame", "Sw3", "SSw", "OrE", "MixE"], first=["simulate", "generate"], edits=["update", "update", "updateargs", "project"], depth=3, n=(180, 2400)),
+                gens=[dict(ids=["SwXY", "SwSame", "Sw3", "SSw", "OrE", "MixE"], first=["simulate", "generate"], edits=["update", "update", "updateargs", "project"], depth=3, n=(128, 2400)),
                       dict(ids=["SwXY", "SwSame"], ids_thorough=["SwXY", "SwSame", "OrE", "MixE", "Sw3"], first=["generate"], edits=[], depth=0, n=(0, 0), sub=True)]),
     "C14": dict(own=CORE,
-                gens=[dict(ids=["Msk", "MskD", "VmMask"], first=["simulate", "generate"], edits=["update", "updateargs", "updateargs", "updatemask"], depth=3, n=(180, 2400))]),
+                gens=[dict(ids=["Msk", "MskD", "VmMask"], first=["simulate", "generate"], edits=["update", "updateargs", "updateargs", "updatemask"], depth=3, n=(128, 2400))]),
     "C15": dict(own=CORE + ["nochange"],
-                gens=[dict(ids=["Dm", "Dm2", "DmMap", "DmCon"], first=["simulate", "generate"], edits=["update", "updateargs", "updateargs", "regenerate", "project"], depth=3, n=(180, 2400)),
+                gens=[dict(ids=["Dm", "Dm2", "DmMap", "DmCon"], first=["simulate", "generate"], edits=["update", "updateargs", "updateargs", "regenerate", "project"], depth=3, n=(128, 2400)),
                       dict(ids=["DmSc"], first=["simulate"], edits=["update", "updateargs"], depth=2, n=(16, 200))]),
     "C16": dict(own=CORE,
                 gens=[dict(ids=["MIt", "MItF", "MItF1"], first=["simulate", "generate"], edits=["update", "updateargs"], depth=1, n=(64, 600))]),
-    "C22": dict(own=["visited", "reuse", "run", "missing"],
-                gens=[dict(ids=["SOne", "SChain", "SIndep", "SNest", "SLit", "S2", "SDup", "SSw", "SVm"], first=["simulate", "generate"], edits=["update", "regenerate", "staticreq"], depth=2, n=(200, 2000))]),
+    "C22": dict(own=["visited", "reuse", "run", "missing", "assess.run"],
+                gens=[dict(ids=["SOne", "SChain", "SIndep", "SNest", "SLit", "S2", "SDup", "SSw", "SVm"], first=["simulate", "generate"], edits=["update", "regenerate", "staticreq", "assess", "assess", "assess"], depth=3, n=(160, 2000))]),
+    "C34": dict(own=["subtrace.choices", "subtrace.score", "run"],
+                gens=[dict(ids=["SOne", "SChain", "SIndep", "SNest", "S2", "VmS", "VmAx", "Rep", "Msk", "Dm", "Dm2"], first=["simulate", "generate"], edits=["subtrace", "subtrace", "update"], depth=3, n=(128, 2000)),
+                      dict(ids=["Sc1", "Sc2", "Sc3"], first=["simulate"], edits=["subtrace"], depth=2, n=(24, 300))]),
+    "C35": dict(own=["mask.equiv", "mask.run", "gen.agree", "gen.weight", "upd.constrained", "upd.kept", "upd.weight", "run"],
+                gens=[dict(ids=[x for x in FAST if x not in ("SwXY", "Sw3", "SSw", "OrE", "MixE")], first=["generatemask"], edits=["updatemask", "updatemask", "update"], depth=2, n=(128, 2400)),
+                      dict(ids=["Sc1", "Sc2", "Acc"], first=["generatemask"], edits=["updatemask"], depth=1, n=(24, 300))]),
     "C38": dict(own=["derived.run", "derived.same", "empty.identity", "static.others", "upd.constrained", "upd.args"],
-                gens=[dict(ids=FAST, first=["simulate", "generate"], edits=["update", "regenerate", "empty", "empty", "staticreq", "diffannotate"], depth=3, n=(200, 2400)),
-                      dict(ids=SLOW, first=["simulate", "generate"], edits=["update", "empty"], depth=1, n=(32, 400))]),
+                gens=[dict(ids=FAST, first=["simulate", "generate"], edits=["update", "regenerate", "empty", "empty", "staticreq", "diffannotate"], depth=3, n=(128, 2400)),
+                      dict(ids=SLOW, first=["simulate", "generate"], edits=["update", "empty"], depth=1, n=(24, 400))]),
 }
 
 PROPS = {
@@ -107,6 +113,8 @@ PROPS = {
     "C15": _t("All core laws on dimap/map/contramap programs plus soundness of the return-value tag after argument changes.", "§5 C15"),
     "C16": _t("masked_iterate / masked_iterate_final against the reference loop in which a False step is inert (no score; value unchanged for the final variant).", "§5 C16"),
     "C22": _t("Static programs incl. tuple addresses and a duplicated address: visited addresses = trace addresses, AddressReuse where a trace is built.", "§5 C22"),
+    "C34": _t("get_subtrace at every call-site address of static programs (also under vmap/repeat/scan/mask/dimap, where the sub-trace is the stacked one): choices = the parent's sub-map at that address below the leading index levels, score = that call's contribution in Exec.", "§5 C34"),
+    "C35": _t("importance and update with Mask-wrapped constraint values (concrete Python flags and traced array flags): validated against the spec with the EFFECTIVE constraint (False entries removed), and differentially against the same request with True masks unwrapped and False entries dropped, run with the same key.", "§5 C35"),
     "C38": _t("propose vs simulate, generate vs importance, Trace.update/edit vs request.edit with the same key; EmptyRequest identity; StaticRequest leaves unaddressed sites alone; DiffAnnotate with identity maps equals its inner request.", "§5 C38"),
 }
 
@@ -214,8 +222,10 @@ def validate(wd, events, rep):
     return fails
 
 
-def run_driver(catalog, cases, mode="eager"):
+def run_driver(catalog, cases, mode="eager", want=("assess", "undo", "alt")):
     from . import gfi_driver
+    for j, c in enumerate(cases):
+        c["want"] = want
     for j, c in enumerate(cases):     # control-flow programs recompile on every eager call: run them jitted (cached), 1 in 8 eagerly
         c.setdefault("mode", "eager" if (c["pid"] in EAGER or j % 8 == 0) else "jit")
     by_pid = {}
@@ -231,10 +241,12 @@ def run_driver(catalog, cases, mode="eager"):
             chunks += [(1, lst[i:i + 8]) for i in range(0, len(lst), 8)]
     chunks.sort(key=lambda c: (c[0], -len(c[1])))
     # tiny programs: XLA's expensive optimisation passes only cost compile time (set before workers import jax)
-    os.environ.setdefault("XLA_FLAGS", "--xla_backend_optimization_level=0 --xla_llvm_disable_expensive_passes=true")
-    ctx = mp.get_context("spawn")
+    os.environ.setdefault("XLA_FLAGS", "--xla_backend_optimization_level=0 --xla_llvm_disable_expensive_passes=true "
+                                       "--xla_cpu_multi_thread_eigen=false intra_op_parallelism_threads=1")
     events = []
-    with ctx.Pool(vlib.NCPU) as pool:
+    npool = int(os.environ.get('VERIF_POOL', 8))
+    mk = (lambda: mp.get_context('spawn').Pool(npool)) if not os.environ.get('VERIF_PIN') else (lambda: vlib.pinned_pool(npool))
+    with mk() as pool:
         for out in pool.imap_unordered(gfi_driver.run_cases, [(catalog, ch, mode) for _, ch in chunks], chunksize=1):
             events.extend(out)
     return events
@@ -290,7 +302,17 @@ def run(prop_id, tier, seed, replay=None):
             uniq.append(c)
     cases = uniq
     t0 = time.time()
-    events = run_driver(catalog, cases)
+    own = set(prof["own"])
+    want = []
+    if any(c.startswith("selfassess") for c in own):
+        want.append("assess")
+    if any(c.startswith("undo") for c in own):
+        want.append("undo")
+    if any(c.startswith("derived") for c in own):
+        want.append("alt")
+    if any(c.startswith("mask.") for c in own):
+        want.append("maskeq")
+    events = run_driver(catalog, cases, want=want)
     drv_s = time.time() - t0
     good, bad = sanitize(events)
     for ev in bad:
